@@ -15,6 +15,7 @@ DECIDED = ("R1 from_u8 of Pos/File/Rank/Piece/Color/Side maps v to the variant w
            "R4 Display then parse is the identity for every file, rank, square, promotion piece and every non-promotion move (64x64), evaluated on the extracted writer and parser tables; "
            "R5 the enumerating iterators are built as 0..N with N the variant count and each of next/nth/next_back/nth_back/size_hint forwards to the same method of the inner Range<u8>, "
            "mapping k to the variant with discriminant k.")
+DECIDED = DECIDED + ' The move parser is decided by evaluating its extracted summary on a corpus of strings (every length 0..7, every byte in the separator position, valid and invalid squares in both positions): it accepts exactly `<square><square>` and `<square>-<square>` with promotion None.'
 NOT_DECIDED = ("random byte strings of other lengths are covered only through the length tests of the slice patterns (the tables have no other branch for them); "
                "the formatting machinery of core::fmt (decimal rendering of u8, char output) is trusted")
 EXPLANATION = ("K4 tables are extracted from MIR with opaque inputs; the checker then evaluates the extracted summaries over the complete finite input domains "
